@@ -373,6 +373,15 @@ pub fn eval_visual(cfg: &Cfg, scene: u64, epoch: usize, dets: &[Det], cands: &[&
         }
     }
     let max_seen = emitted.iter().map(|e| e.2).fold(-1.0f64, f64::max);
+    // noise of a whole weight: (largest number of votes of a claim) x 1e-5 x (largest distance)
+    let max_votes = {
+        let mut m: std::collections::HashMap<(usize, usize), usize> = std::collections::HashMap::new();
+        for (i, j, _) in &emitted {
+            *m.entry((*i, *j)).or_default() += 1;
+        }
+        m.values().cloned().max().unwrap_or(1)
+    };
+    VOTE_NOISE.with(|n| n.set(max_votes as f64 * 1e-5 * max_seen.max(1e-3)));
     let mut claims: Vec<Claim> = vec![];
     for (i, j, d) in &emitted {
         match claims.iter_mut().find(|c| c.det == *i && c.track == cands[*j].id) {
@@ -398,8 +407,18 @@ pub enum VVerdict {
     Violation(String, Value),
 }
 
+thread_local! {
+    /// absolute rounding noise of one vote's weight in the call under evaluation (set by `eval_visual`)
+    static VOTE_NOISE: std::cell::Cell<f64> = std::cell::Cell::new(0.0);
+}
+
+/// A weight is sum(largest emitted distance - d) over the votes; the library computes every feature distance in f32
+/// (SIMD, relative error up to ~1e-5 by C16's own tolerance), so a weight carries an ABSOLUTE error of about
+/// votes x 1e-5 x largest distance whatever its own magnitude. Two weights are clearly ordered only beyond that noise
+/// (and beyond 1e-4 relative).
 fn clearly_greater(a: f64, b: f64) -> bool {
-    a > b && (a - b) > 1e-4 * a.abs().max(b.abs()).max(1e-9)
+    let noise = VOTE_NOISE.with(|n| n.get());
+    a > b && (a - b) > (1e-4 * a.abs().max(b.abs())).max(noise).max(1e-9)
 }
 
 pub fn check_visual_call(cfg: &Cfg, scene: u64, epoch: usize, dets: &[Det], recs: &[Rec], pre: &[LiveTrack]) -> VVerdict {
